@@ -428,6 +428,14 @@ def r16h(ctx):
                 and [u(x) for x in i0.orelse[0].body] == ["n = self.index_below"] and any(isinstance(x, ast.Raise) for x in i0.orelse[0].orelse)
     ctx.check(ok, "R16h", f"{LAY}.index", "every depth is dispatched to its layer's index; above the stack -> index_above, below -> index_below, gaps raise", "",
               key_detail="layered index", loc=ctx.loc(ci.module, idx))
+    # the per-depth dispatch is the only way to a result: scalar and array depths take the same route (layer_at_depth's half-open lookup)
+    rets = [u(r_.value) for r_ in returns(idx)]
+    layer_calls = [c_ for c_ in ast.walk(idx) if isinstance(c_, ast.Call) and isinstance(c_.func, ast.Attribute) and c_.func.attr == "index"
+                   and not (isinstance(c_.func.value, ast.Name) and c_.func.value.id == "self")]
+    in_try = [c_ for t_ in tr for b_ in t_.body for c_ in ast.walk(b_) if c_ in layer_calls]
+    ok = sorted(rets) == sorted(["indices[0]", "np.asarray(indices)"]) and len(layer_calls) == len(in_try) == 1
+    ctx.check(ok, "R16h", f"{LAY}.index", "results only come from the per-depth loop (no second route, e.g. a whole-array fast path with its own containment test)",
+              f"returns={rets}; layer index calls={len(layer_calls)} (inside the dispatch: {len(in_try)})", key_detail="single dispatch route")
     ct = repo.member(LAY, "contains")
     ok = canon(strip_doc(ct)) == canon_src("for layer in self.layers:\n    if layer.contains(point):\n        return True\nreturn False", keep=("point",)) or \
         canon(strip_doc(ct)) == canon_src("for layer in self.layers:\n    if layer.contains(point):\n        return True\nreturn False")
@@ -447,6 +455,9 @@ def run(ctx):
 
 SELFTEST = {
     "faults": [
+        {"name": "whole-array fast path with a closed containment test", "file": "pyrex/custom/layered_ice/ice_model.py", "old": "            single_value = False\n\n        indices = []\n",
+         "new": "            single_value = False\n            for layer in self.layers:\n                if layer.valid_range[0]<=np.min(z) and np.max(z)<=layer.valid_range[1]:\n                    return np.asarray(layer.index(np.asarray(z)))\n\n        indices = []\n",
+         "rule": "R16h"},
         {"name": "<= in the array arm only", "file": "pyrex/ice_model.py", "old": "        indices[z<self.valid_range[0]] = self.index_below", "new": "        indices[z<=self.valid_range[0]] = self.index_below",
          "occurrence": 1, "rule": "R16a"},
         {"name": "wrong edge in the inverse clamp", "file": "pyrex/ice_model.py", "old": "        depths[n<self.index(self.valid_range[1])] = self.valid_range[1]",
